@@ -361,7 +361,7 @@ fn c20_case(c: &SerCase) -> CaseResult {
 
 pub fn c20(ctx: &mut Ctx) {
     ctx.rule = "arbitrary values of i64, u64, f64 (bit patterns), usize, bool, String, Vec<u8>, nested vectors, SystemTime (pre-epoch, epoch, far future, sub-second), UTF-8 PathBuf, SocketAddr/IpAddr (v4, v6, mapped, scoped), DbValue, DbKeyValue, DbId, DbKeyOrder, QueryId(s), QueryValues, conditions (nested where to depth 4), SearchQuery, every query through QueryType (built by the same grammar as the histories), and a corpus of derived user types (named / tuple / unit / empty structs, a generic struct, enums with unit / tuple / multi-field / struct variants, nested enums-in-structs-in-vectors). Oracle: T::deserialize(x.serialize()) is Ok and equals x (Debug text and re-serialized bytes, so floats compare bitwise) and x.serialized_size() == x.serialize().len(). Non-trivial: the value has a variable-length component. Distinct = hash of (type, bytes). IPv6 socket addresses are generated with flow label 0 (what parsing text or the OS yields; a non-zero flow label is outside the textual encoding the codec documents).".into();
-    let cases = ctx.tier.pick(40_000, 1_500_000);
+    let cases = ctx.tier.pick(400_000, 4_000_000);
     replay_saved::<SerCase, _>(ctx, "c20-roundtrip", c20_case);
     run_campaign(ctx, CampaignCfg { name: "c20-roundtrip", cases, max_shrink_iters: 2000, max_restarts: 3 }, ser_case, c20_case);
 }
@@ -384,6 +384,11 @@ pub enum Mutation {
     Append(Vec<u8>),
     /// replace the whole input by random bytes
     Random(Vec<u8>),
+    /// overwrite a run of bytes (position, length, value): puts several adjacent fields at a
+    /// boundary value at once (all 0xff, all 0x00, all 0x80)
+    Fill(u16, u8, u8),
+    /// overwrite a 4-byte field at a position with a boundary value (u32 fields such as nanoseconds)
+    Word32At(u16, u8),
 }
 
 #[derive(Clone, Debug, Serialize, Deserialize)]
@@ -391,6 +396,9 @@ pub struct DeCase {
     pub ty_sel: u16,
     pub base: SerCase,
     pub mutation: Mutation,
+    /// further mutations applied after `mutation` (boundary values in two or three fields at once)
+    #[serde(default)]
+    pub more: Vec<Mutation>,
 }
 
 fn special_len(k: u8, remaining: u64, original: u64) -> u64 {
@@ -412,7 +420,14 @@ fn special_len(k: u8, remaining: u64, original: u64) -> u64 {
 
 fn mutate(c: &DeCase) -> Vec<u8> {
     let mut b = c.base.bytes.clone();
-    match &c.mutation {
+    for m in std::iter::once(&c.mutation).chain(c.more.iter()) {
+        b = mutate_one(b, m);
+    }
+    b
+}
+
+fn mutate_one(mut b: Vec<u8>, m: &Mutation) -> Vec<u8> {
+    match m {
         Mutation::None => {}
         Mutation::Truncate(s) => {
             let n = pick(*s, b.len() + 1);
@@ -441,6 +456,29 @@ fn mutate(c: &DeCase) -> Vec<u8> {
         }
         Mutation::Append(x) => b.extend(x),
         Mutation::Random(x) => b = x.clone(),
+        Mutation::Fill(s, len, v) => {
+            if !b.is_empty() {
+                let pos = pick(*s, b.len());
+                let end = (pos + 1 + *len as usize % 24).min(b.len());
+                for x in &mut b[pos..end] {
+                    *x = *v;
+                }
+            }
+        }
+        Mutation::Word32At(s, k) => {
+            if b.len() >= 4 {
+                let pos = pick(*s, b.len() - 3);
+                let v: u32 = match k % 6 {
+                    0 => 999_999_999,
+                    1 => 1_000_000_000,
+                    2 => u32::MAX,
+                    3 => 1 << 31,
+                    4 => 0,
+                    _ => 2_000_000_000,
+                };
+                b[pos..pos + 4].copy_from_slice(&v.to_le_bytes());
+            }
+        }
     }
     b
 }
@@ -456,7 +494,7 @@ fn c21_case(c: &DeCase) -> CaseResult {
         let (name, f) = reg[idx];
         let r = catch(|| f(&bytes)).map_err(|mut e| {
             let ty = name.split('<').next().unwrap_or(name);
-            e.detail = format!("{} while deserializing {} bytes as {name} (base {} mutated by {:?}): {:?}", e.detail, bytes.len(), c.base.ty, c.mutation, crate::core::truncate(&format!("{bytes:?}"), 600));
+            e.detail = format!("{} while deserializing {} bytes as {name} (base {} mutated by {:?}): {:?}", e.detail, bytes.len(), c.base.ty, (&c.mutation, &c.more), crate::core::truncate(&format!("{bytes:?}"), 600));
             e.sig = format!("deserialize panics ({ty}): {}", e.sig);
             e
         })?;
@@ -473,6 +511,8 @@ fn c21_case(c: &DeCase) -> CaseResult {
             Mutation::FlipBit(_, _) => "mutation flip bit",
             Mutation::Append(_) => "mutation append",
             Mutation::Random(_) => "random bytes",
+            Mutation::Fill(_, _, _) => "mutation fill run",
+            Mutation::Word32At(_, _) => "mutation 32-bit field",
         },
         1,
     );
@@ -487,15 +527,30 @@ fn de_case() -> impl Strategy<Value = DeCase> {
         3 => (any::<u16>(), prop_oneof![Just(0u8), Just(255u8), any::<u8>()]).prop_map(|(a, b)| Mutation::SetByte(a, b)),
         2 => (any::<u16>(), any::<u8>()).prop_map(|(a, b)| Mutation::FlipBit(a, b)),
         1 => prop::collection::vec(any::<u8>(), 1..20).prop_map(Mutation::Append),
+        3 => (any::<u16>(), any::<u8>(), prop_oneof![Just(255u8), Just(0u8), Just(128u8)]).prop_map(|(a, l, v)| Mutation::Fill(a, l, v)),
+        2 => (any::<u16>(), any::<u8>()).prop_map(|(a, b)| Mutation::Word32At(a, b)),
+        1 => (0usize..40, prop_oneof![Just(255u8), Just(0u8), Just(128u8)]).prop_map(|(n, v)| Mutation::Random(vec![v; n])),
         3 => prop::collection::vec(any::<u8>(), 0..64).prop_map(Mutation::Random),
         1 => prop::collection::vec(prop_oneof![Just(0u8), Just(255u8), Just(1u8), any::<u8>()], 0..512).prop_map(Mutation::Random),
     ];
-    (any::<u16>(), ser_case(), mutation).prop_map(|(ty_sel, base, mutation)| DeCase { ty_sel, base, mutation })
+    let more = prop_oneof![
+        3 => Just(vec![]),
+        2 => prop::collection::vec(
+            prop_oneof![
+                (any::<u16>(), any::<u8>()).prop_map(|(a, b)| Mutation::LenAt(a, b)),
+                (any::<u16>(), any::<u8>()).prop_map(|(a, b)| Mutation::Word32At(a, b)),
+                (any::<u16>(), any::<u8>(), prop_oneof![Just(255u8), Just(0u8), Just(128u8)]).prop_map(|(a, l, v)| Mutation::Fill(a, l, v)),
+                (any::<u16>(), prop_oneof![Just(0u8), Just(255u8), any::<u8>()]).prop_map(|(a, b)| Mutation::SetByte(a, b)),
+            ],
+            1..3
+        ),
+    ];
+    (any::<u16>(), ser_case(), mutation, more).prop_map(|(ty_sel, base, mutation, more)| DeCase { ty_sel, base, mutation, more })
 }
 
 pub fn c21(ctx: &mut Ctx) {
-    ctx.rule = "valid encodings of every C20 type mutated by: truncation at a generated offset, overwriting 8 bytes at a generated offset with a boundary length (len+-1, 2^31, 2^32+1, 2^56, 2^63, u64::MAX, u64::MAX-7, u64::MAX/8, remaining, remaining+1, 0), setting a byte (0, 255, random; reaches enum variant bytes), flipping a bit, appending junk; plus random byte strings of 0..512 bytes. Every input is fed to the deserializer of its own type and to one other generated type out of 54 (all built-in and derived deserializers and the typed conversions of byte-array values: Vec<i64|u64|f64|String|bool|derived value types|SystemTime|SocketAddr>::try_from(DbValue::Bytes)). Cases run in isolated child processes with a 64 MiB single-allocation cap. Oracle: every call returns Ok or Err - no panic, abort or enormous allocation request. evaluations = deserializer calls. Non-trivial: the input is a mutated valid encoding. Distinct = hash of the case.".into();
-    let cases = ctx.tier.pick(60_000, 2_000_000);
+    ctx.rule = "valid encodings of every C20 type mutated by: truncation at a generated offset, overwriting 8 bytes at a generated offset with a boundary length (len+-1, 2^31, 2^32+1, 2^56, 2^63, u64::MAX, u64::MAX-7, u64::MAX/8, remaining, remaining+1, 0), setting a byte (0, 255, random; reaches enum variant bytes), flipping a bit, appending junk, filling a run of 1..24 bytes with 0xff/0x00/0x80 (several adjacent fields at a boundary at once), overwriting a 32-bit field with boundary values (10^9-1, 10^9, 2^31, u32::MAX), optionally followed by one or two further mutations; plus random byte strings of 0..512 bytes. Every input is fed to the deserializer of its own type and to one other generated type out of 54 (all built-in and derived deserializers and the typed conversions of byte-array values: Vec<i64|u64|f64|String|bool|derived value types|SystemTime|SocketAddr>::try_from(DbValue::Bytes)). Cases run in isolated child processes with a 64 MiB single-allocation cap. Oracle: every call returns Ok or Err - no panic, abort or enormous allocation request. evaluations = deserializer calls. Non-trivial: the input is a mutated valid encoding. Distinct = hash of the case.".into();
+    let cases = ctx.tier.pick(150_000, 3_000_000);
     replay_saved::<DeCase, _>(ctx, "c21-deserialize", c21_case);
     run_campaign(ctx, CampaignCfg { name: "c21-deserialize", cases, max_shrink_iters: 1500, max_restarts: 3 }, de_case, c21_case);
 }
@@ -587,6 +642,41 @@ pub struct EOrg {
     pub members: Vec<String>,
 }
 
+/// optional fields in the middle of the field list, followed by a mandatory one
+#[derive(Clone, Debug, PartialEq, DbType)]
+pub struct TOptMid {
+    pub db_id: Option<DbId>,
+    pub first: String,
+    pub nickname: Option<String>,
+    pub score: Option<i64>,
+    pub last: u64,
+}
+
+/// the optional field comes first, no id field
+#[derive(Clone, Debug, PartialEq, DbType)]
+pub struct TOptFirst {
+    pub opt: Option<u64>,
+    pub name: String,
+}
+
+/// the optional field is the last stored field but a skipped field follows it
+#[derive(Clone, Debug, PartialEq, DbType)]
+pub struct TOptSkip {
+    pub db_id: Option<DbId>,
+    pub name: String,
+    pub opt: Option<Vec<String>>,
+    #[agdb(skip)]
+    pub skipped: u64,
+}
+
+/// element type with an optional field before a mandatory one
+#[derive(Clone, Debug, PartialEq, agdb::DbElement)]
+pub struct ENote {
+    pub db_id: Option<DbId>,
+    pub note: Option<String>,
+    pub name: String,
+}
+
 fn attr() -> impl Strategy<Value = Attr> {
     (any_string(), prop::collection::vec(any_u64(), 0..4)).prop_map(|(name, value)| Attr { name, value })
 }
@@ -627,6 +717,31 @@ impl KeepOnUpdate for TNoId {}
 impl KeepOnUpdate for TFlat {}
 impl KeepOnUpdate for EUser {}
 impl KeepOnUpdate for EOrg {}
+impl KeepOnUpdate for TOptFirst {}
+impl KeepOnUpdate for TOptMid {
+    fn keep_omitted(&mut self, old: &Self) {
+        if self.nickname.is_none() {
+            self.nickname = old.nickname.clone();
+        }
+        if self.score.is_none() {
+            self.score = old.score;
+        }
+    }
+}
+impl KeepOnUpdate for TOptSkip {
+    fn keep_omitted(&mut self, old: &Self) {
+        if self.opt.is_none() {
+            self.opt = old.opt.clone();
+        }
+    }
+}
+impl KeepOnUpdate for ENote {
+    fn keep_omitted(&mut self, old: &Self) {
+        if self.note.is_none() {
+            self.note = old.note.clone();
+        }
+    }
+}
 impl KeepOnUpdate for TOpt {
     fn keep_omitted(&mut self, old: &Self) {
         if self.name.is_none() {
@@ -808,7 +923,7 @@ fn t_flat(seed: u64) -> TFlat {
 }
 
 fn c22_case(c: &TypeCase) -> CaseResult {
-    let mut ci = match c.kind % 8 {
+    let mut ci = match c.kind % 12 {
         0 => roundtrip_type::<TPlain, _, _, _>(c, t_plain, |v, id| v.db_id = Some(id), |v| v.db_id, true, false),
         1 => roundtrip_type::<TVecs, _, _, _>(
             c,
@@ -826,7 +941,7 @@ fn c22_case(c: &TypeCase) -> CaseResult {
         4 => roundtrip_type::<TNoId, _, _, _>(c, |s| build((any_string(), any_u64()).prop_map(|(title, count)| TNoId { title, count }), s), |_, _| {}, |_| None, false, false),
         5 => roundtrip_type::<TFlat, _, _, _>(c, t_flat, |v, id| v.db_id = Some(id), |v| v.db_id, true, false),
         6 => roundtrip_type::<EUser, _, _, _>(c, |s| build((any_string(), any_u64()).prop_map(|(name, age)| EUser { db_id: None, name, age }), s), |v, id| v.db_id = Some(id), |v| v.db_id, true, true),
-        _ => roundtrip_type::<EOrg, _, _, _>(
+        7 => roundtrip_type::<EOrg, _, _, _>(
             c,
             |s| build((any_string(), prop::collection::vec(any_string(), 0..3)).prop_map(|(name, members)| EOrg { db_id: None, name, members }), s),
             |v, id| v.db_id = Some(id),
@@ -834,19 +949,44 @@ fn c22_case(c: &TypeCase) -> CaseResult {
             true,
             true,
         ),
+        8 => roundtrip_type::<TOptMid, _, _, _>(
+            c,
+            |s| build((any_string(), prop::option::of(any_string()), prop::option::of(any_i64()), any_u64()).prop_map(|(first, nickname, score, last)| TOptMid { db_id: None, first, nickname, score, last }), s),
+            |v, id| v.db_id = Some(id),
+            |v| v.db_id,
+            true,
+            false,
+        ),
+        9 => roundtrip_type::<TOptFirst, _, _, _>(c, |s| build((prop::option::of(any_u64()), any_string()).prop_map(|(opt, name)| TOptFirst { opt, name }), s), |_, _| {}, |_| None, false, false),
+        10 => roundtrip_type::<TOptSkip, _, _, _>(
+            c,
+            |s| build((any_string(), prop::option::of(prop::collection::vec(any_string(), 0..3))).prop_map(|(name, opt)| TOptSkip { db_id: None, name, opt, skipped: 0 }), s),
+            |v, id| v.db_id = Some(id),
+            |v| v.db_id,
+            true,
+            false,
+        ),
+        _ => roundtrip_type::<ENote, _, _, _>(
+            c,
+            |s| build((prop::option::of(any_string()), any_string()).prop_map(|(note, name)| ENote { db_id: None, note, name }), s),
+            |v, id| v.db_id = Some(id),
+            |v| v.db_id,
+            true,
+            true,
+        ),
     }?;
-    ci.nontrivial = c.seeds.len() >= 2 || matches!(c.kind % 8, 1 | 2 | 3);
+    ci.nontrivial = c.seeds.len() >= 2 || matches!(c.kind % 12, 1 | 2 | 3 | 8 | 9 | 10 | 11);
     Ok(ci)
 }
 
 pub fn c22(ctx: &mut Ctx) {
-    ctx.rule = "a corpus of 8 derived types (DbType with db_id as Option<DbId> / Option<QueryId> / DbId / absent; every supported scalar incl. i32/u32/f32/bool; String; all vector types incl. Vec<bool> and Vec<i32>; Option fields of scalars, vectors and custom values; nested custom value types through DbValue+DbSerialize derive and vectors of them through DbTypeMarker; flatten, rename, skip; two DbElement types) with arbitrary field values (None options, empty vectors, boundary strings, float bit patterns), 1-5 values per case in a database that also holds an unrelated element with overlapping keys. Inserted singly (insert().nodes().values(&v), insert().element(&v)) and in batches, read back through select().elements::<T>().ids(..) and select().values(T::db_keys()).ids(..) + try_into; one element is updated through its db_id. Oracle: every value reads back equal (Debug text, floats exact incl. f32 through f64), the update changes exactly that element (all other elements byte-identical), DbElement typed searches return only that type. evaluations = values stored. Non-trivial: >=2 values in the case or a type with vectors / options / custom values. Distinct = hash of the case.".into();
-    let cases = ctx.tier.pick(4000, 120_000);
+    ctx.rule = "a corpus of 12 derived types (DbType with db_id as Option<DbId> / Option<QueryId> / DbId / absent; optional fields first, in the middle, last and before a skipped field; every supported scalar incl. i32/u32/f32/bool; String; all vector types incl. Vec<bool> and Vec<i32>; Option fields of scalars, vectors and custom values; nested custom value types through DbValue+DbSerialize derive and vectors of them through DbTypeMarker; flatten, rename, skip; three DbElement types) with arbitrary field values (None options, empty vectors, boundary strings, float bit patterns), 1-5 values per case in a database that also holds an unrelated element with overlapping keys. Inserted singly (insert().nodes().values(&v), insert().element(&v)) and in batches, read back through select().elements::<T>().ids(..) and select().values(T::db_keys()).ids(..) + try_into; one element is updated through its db_id. Oracle: every value reads back equal (Debug text, floats exact incl. f32 through f64), the update changes exactly that element (all other elements byte-identical), DbElement typed searches return only that type. evaluations = values stored. Non-trivial: >=2 values in the case or a type with vectors / options / custom values. Distinct = hash of the case.".into();
+    let cases = ctx.tier.pick(60_000, 600_000);
     replay_saved::<TypeCase, _>(ctx, "c22-types", c22_case);
     run_campaign(
         ctx,
         CampaignCfg { name: "c22-types", cases, max_shrink_iters: 1500, max_restarts: 3 },
-        || (0u8..8, prop::collection::vec(any::<u64>(), 1..5), any::<u8>(), any::<u16>()).prop_map(|(kind, seeds, batch, update_sel)| TypeCase { kind, seeds, batch, update_sel }),
+        || (0u8..12, prop::collection::vec(any::<u64>(), 1..5), any::<u8>(), any::<u16>()).prop_map(|(kind, seeds, batch, update_sel)| TypeCase { kind, seeds, batch, update_sel }),
         c22_case,
     );
 }
